@@ -303,6 +303,112 @@ theorem recv_sendAll (hc : AeadOK c) : ∀ (msgs : List Bytes) (s : Sender) (res
     rw [recv_frame c hc s m _ h1.1 h1.2, ih (frame c s m).2 rest (fun x hx => hm x (by simp [hx]))]
     simp [consOut, andThen]
 
+theorem unbe16_lt (p : Bytes) : unbe16 p < 65536 := by
+  unfold unbe16
+  have h1 := (p.getD 0 0).toNat_lt
+  have h2 := (p.getD 1 0).toNat_lt
+  omega
+
+theorem be16_unbe16 (p : Bytes) (h : p.length = 2) : be16 (unbe16 p) = p := by
+  match p, h with
+  | [a, b], _ =>
+    have ha := a.toNat_lt
+    have hb := b.toNat_lt
+    simp only [be16, unbe16, List.getD_cons_zero, List.getD_cons_succ]
+    congr 1
+    · apply UInt8.toNat_inj.mp; simp; omega
+    · congr 1; apply UInt8.toNat_inj.mp; simp
+
+/-- whatever bytes make an in-sync receiver deliver a first message `m`: they begin with exactly
+    the genuine frame of `m` under the sender's current state -/
+theorem delivered_is_genuine (hc : AeadOK c) (ha : Authentic c) (s : Sender) (x m : Bytes)
+    (out : List Bytes) (r' : Option Receiver)
+    (h : recvData c (Receiver.mirrorOf s) x = (m :: out, r')) :
+    ∃ rest, x = (frame c s m).1 ++ rest ∧ 2 ≤ m.length ∧ m.length ≤ 65535
+      ∧ (out, r') = recvData c (Receiver.mirrorOf (frame c s m).2) rest := by
+  by_cases h18 : x.length < 18
+  · exfalso
+    by_cases h0 : x = []
+    · subst h0; rw [recvData_nil] at h; cases h
+    · rw [recvData_short c _ _ h0 (by simp [Receiver.mirrorOf]; omega)] at h; cases h
+  have hx : x = x.take 18 ++ x.drop 18 := (List.take_append_drop 18 x).symm
+  have hl18 : (x.take 18).length = 18 := by simp; omega
+  cases ho : c.aeadOpen (s.rotate c).sk (s.rotate c).sn [] (x.take 18) with
+  | none => rw [recv_header_bad c s x (by omega) ho] at h; cases h
+  | some p =>
+    have hp := ha _ _ _ _ _ ho
+    have hpl : p.length = 2 := by
+      have := congrArg List.length hp
+      rw [hc.seal_len, hl18] at this; omega
+    have hplt := unbe16_lt p
+    by_cases hlen : unbe16 p < 2
+    · -- announced length < 2: dropped
+      exfalso
+      rw [recvData_fill c _ _ (by simp [Receiver.mirrorOf]) (by simp [Receiver.mirrorOf]; omega)] at h
+      have e1 : (Receiver.mirrorOf s).need - (Receiver.mirrorOf s).buf.length = 18 := by
+        simp [Receiver.mirrorOf]
+      rw [e1] at h
+      have hcpl : complete c { (Receiver.mirrorOf s) with buf := [] }
+          ((Receiver.mirrorOf s).buf ++ x.take 18) = .disconnect := by
+        unfold complete decryptLengthHeader
+        have e2 : ({ (Receiver.mirrorOf s) with buf := [] } : Receiver) = Receiver.mirrorOf s := rfl
+        rw [e2, rotate_mirror]
+        simp [Receiver.mirrorOf, ho, hlen]
+      rw [hcpl] at h; cases h
+    · rw [hx, recv_header_ok c s _ _ (unbe16 p) hl18 (by rw [ho, be16_unbe16 p hpl]) (by omega) hplt] at h
+      by_cases hb : (x.drop 18).length < unbe16 p + 16
+      · exfalso
+        by_cases h0 : x.drop 18 = []
+        · rw [h0, recvData_nil] at h; cases h
+        · rw [recvData_short c _ _ h0 (by simp only [Receiver.midOf, List.length_nil]; omega)] at h; cases h
+      have hy : x.drop 18 = (x.drop 18).take (unbe16 p + 16) ++ (x.drop 18).drop (unbe16 p + 16) :=
+        (List.take_append_drop _ _).symm
+      have hlb : ((x.drop 18).take (unbe16 p + 16)).length = unbe16 p + 16 := by
+        rw [List.length_take]; omega
+      cases hob : c.aeadOpen (s.rotate c).sk ((s.rotate c).sn + 1) [] ((x.drop 18).take (unbe16 p + 16)) with
+      | none => rw [recv_body_bad c _ _ _ (by omega) hob] at h; cases h
+      | some m' =>
+        rw [hy, recv_body_ok c _ _ _ m' (unbe16 p) hlb hplt hob] at h
+        simp only [consOut] at h
+        have hm : m' = m := by
+          have := congrArg (fun t => t.1.head?) h; simpa using this
+        subst hm
+        have hbody := ha _ _ _ _ _ hob
+        have hml : m'.length = unbe16 p := by
+          have := congrArg List.length hbody
+          rw [hc.seal_len, hlb] at this; omega
+        refine ⟨(x.drop 18).drop (unbe16 p + 16), ?_, by omega, by omega, ?_⟩
+        · rw [frame_fst, hml, be16_unbe16 p hpl, ← hp, ← hbody, List.append_assoc, ← hy, ← hx]
+        · rw [frame_snd]
+          have h1 := congrArg (fun t => t.1.tail) h
+          have h2 := congrArg (fun t => t.2) h
+          simp only [List.tail_cons] at h1 h2
+          exact (Prod.ext h1 h2).symm
+
+/-- everything an in-sync receiver delivers from ANY byte string is a prefix of genuine frames:
+    the bytes read begin with exactly `sendAll` of the delivered messages -/
+theorem delivered_all_genuine (hc : AeadOK c) (ha : Authentic c) : ∀ (msgs : List Bytes) (s : Sender)
+    (x : Bytes) (r' : Option Receiver), recvData c (Receiver.mirrorOf s) x = (msgs, r') →
+    ∃ rest, x = (sendAll c s msgs).1 ++ rest
+      ∧ (∀ m ∈ msgs, 2 ≤ m.length ∧ m.length ≤ 65535)
+      ∧ ([], r') = recvData c (Receiver.mirrorOf (sendAll c s msgs).2) rest := by
+  intro msgs
+  induction msgs with
+  | nil => intro s x r' h; exact ⟨x, by simp [sendAll], by simp, by simp [sendAll, h]⟩
+  | cons m ms ih =>
+    intro s x r' h
+    obtain ⟨rest1, hx, h2, h65, hrest⟩ := delivered_is_genuine c hc ha s x m ms r' h
+    obtain ⟨rest, hr1, hok, hfin⟩ := ih (frame c s m).2 rest1 r' hrest.symm
+    have e : sendAll c s (m :: ms)
+        = ((frame c s m).1 ++ (sendAll c (frame c s m).2 ms).1, (sendAll c (frame c s m).2 ms).2) := rfl
+    refine ⟨rest, ?_, ?_, ?_⟩
+    · rw [e, hx, hr1, List.append_assoc]
+    · intro m' hm'
+      rcases List.mem_cons.mp hm' with h | h
+      · subst h; exact ⟨h2, h65⟩
+      · exact hok m' h
+    · rw [e]; exact hfin
+
 /-! ### the sender's counter schedule -/
 
 theorem frame_sn (s : Sender) (m : Bytes) :
